@@ -32,6 +32,7 @@ nni_dialer_id(nni_dialer *d)
 void
 nni_dialer_destroy(nni_dialer *d)
 {
+	NNI_VERIF_TRACE("dialer", d, "destroy", NULL);
 	nni_aio_fini(&d->d_con_aio);
 	nni_aio_fini(&d->d_tmo_aio);
 
@@ -258,6 +259,8 @@ nni_dialer_init(nni_dialer *d, nni_sock *s, nni_sp_tran *tran)
 
 	if (rv == 0) {
 		dialer_register_stats(d);
+		NNI_VERIF_TRACE("dialer", d, "create", "\"sock\":\"%lx\",\"id\":%u",
+		    (unsigned long) (uintptr_t) s, (unsigned) d->d_id);
 	}
 
 	return (rv);
@@ -333,6 +336,9 @@ nni_dialer_find(nni_dialer **dp, uint32_t id)
 	if ((d = nni_id_get(&dialers, id)) != NULL) {
 		d->d_ref++;
 		*dp = d;
+	} else {
+		NNI_VERIF_TRACE("dialer", d, "find", "\"id\":%u,\"rv\":%d",
+		    (unsigned) id, (int) NNG_ENOENT);
 	}
 	nni_mtx_unlock(&dialers_lk);
 	return (d == NULL ? NNG_ENOENT : 0);
@@ -380,6 +386,7 @@ nni_dialer_close(nni_dialer *d)
 	}
 	d->d_closed = true;
 	nni_id_remove(&dialers, d->d_id);
+	NNI_VERIF_TRACE("dialer", d, "closed", NULL);
 	nni_mtx_unlock(&dialers_lk);
 
 	nni_dialer_shutdown(d);
@@ -411,6 +418,8 @@ dialer_connect_cb(void *arg)
 	d->d_user_aio = NULL;
 	nni_mtx_unlock(&d->d_mtx);
 
+	NNI_VERIF_TRACE("dialer", d, "connect_cb", "\"rv\":%d,\"user\":%d",
+	    (int) nni_aio_result(aio), user_aio != NULL ? 1 : 0);
 	switch ((rv = nni_aio_result(aio))) {
 	case 0:
 #ifdef NNG_ENABLE_STATS
@@ -446,6 +455,7 @@ dialer_connect_cb(void *arg)
 static void
 dialer_connect_start(nni_dialer *d)
 {
+	NNI_VERIF_TRACE("dialer", d, "connect", NULL);
 	d->d_ops.d_connect(d->d_data, &d->d_con_aio);
 }
 
